@@ -397,6 +397,92 @@ fn cmd_eval() {
     }
 }
 
+/// the answers to every kind of question about one position, as one string (a "panic" is an answer); `which` selects the question
+fn query_of(fen: &str, which: usize) -> String {
+    let fen = fen.to_string();
+    catch_unwind(AssertUnwindSafe(|| {
+        let mut b = Board::from_fen(&fen);
+        match which {
+            0 => format!("{}", u8::from(b.is_in_check(Color::White))),
+            1 => format!("{}", u8::from(b.is_in_check(Color::Black))),
+            2 => {
+                let mut v: Vec<String> = b.get_legal_moves().iter().map(enc_ply).collect();
+                v.sort();
+                v.join(";")
+            }
+            3 => format!("{}", b.get_all_moves().len()),
+            4 => format!("{}", b.verif_attacked_squares(Color::White)),
+            5 => format!("{}", b.verif_attacked_squares(Color::Black)),
+            6 => format!("{}", i64::from(SimpleEvaluator.evaluate(&mut b))),
+            7 => format!("{} {}", b.zkey.verif_u64(), scratch_key(&b)),
+            _ => {
+                use crate::board::transposition_table::TRANSPOSITION_TABLE;
+                use crate::search::Search;
+                TRANSPOSITION_TABLE.write().unwrap().clear();
+                *crate::search::verif::TRACE.lock().unwrap() = None;
+                let mut search = Search::new(&b, None);
+                search.search(&SimpleEvaluator, Some(2));
+                let (bm, bs, n, _) = search.verif_result();
+                TRANSPOSITION_TABLE.write().unwrap().clear();
+                format!("{} {:?} {}", bm.map_or("none".to_string(), |p| enc_ply(&p)), bs, n)
+            }
+        }
+    }))
+    .unwrap_or_else(|_| "PANIC".to_string())
+}
+const QUERY_NAMES: [&str; 9] = [
+    "is_in_check(White)",
+    "is_in_check(Black)",
+    "get_legal_moves",
+    "get_all_moves().len()",
+    "attacked squares (White)",
+    "attacked squares (Black)",
+    "evaluate",
+    "key / from-scratch key",
+    "search depth 2 from an empty cache",
+];
+
+/// pairs: stdin lines "FEN_X | FEN_Y".  For every question q: the answer about Y on a FRESH thread must equal the answer about Y given
+/// right after the same question (and after every other question) was asked about X on the same thread: what the engine says about a
+/// position may not depend on which position it was asked about before (thread-local or global memos keyed by something weaker than
+/// the position).  Output per line: JSON list of {"q": name, "after": name of the question asked about X, "alone": .., "after_x": ..}
+fn cmd_pairs() {
+    // (no stdout lock held here: the searches on the spawned threads print their own info lines)
+    for line in std::io::stdin().lock().lines() {
+        let line = line.unwrap();
+        let Some((x, y)) = line.split_once('|') else { continue };
+        let (x, y) = (x.trim().to_string(), y.trim().to_string());
+        let mut bad: Vec<String> = Vec::new();
+        for q in 0..QUERY_NAMES.len() {
+            let yy = y.clone();
+            let alone = std::thread::spawn(move || query_of(&yy, q)).join().unwrap_or_else(|_| "PANIC".to_string());
+            for pre in 0..QUERY_NAMES.len() {
+                // only same-kind and the two check questions as predecessors (keeps it quadratic in nothing)
+                if pre != q && pre > 1 {
+                    continue;
+                }
+                let (xx, yy) = (x.clone(), y.clone());
+                let after = std::thread::spawn(move || {
+                    let _ = query_of(&xx, pre);
+                    query_of(&yy, q)
+                })
+                .join()
+                .unwrap_or_else(|_| "PANIC".to_string());
+                if after != alone {
+                    bad.push(format!(
+                        "{{\"q\":\"{}\",\"after\":\"{}\",\"alone\":\"{}\",\"after_x\":\"{}\"}}",
+                        QUERY_NAMES[q],
+                        QUERY_NAMES[pre],
+                        alone.chars().take(120).collect::<String>(),
+                        after.chars().take(120).collect::<String>()
+                    ));
+                }
+            }
+        }
+        println!("PAIRS [{}]", bad.join(","));
+    }
+}
+
 /// parse: stdin lines -> "OK <Debug of the command>" | "ERR <message>" | "PANIC"
 fn cmd_parse() {
     let mut o = out();
@@ -780,6 +866,33 @@ fn cmd_accepts() {
         }));
         match r {
             Ok(s) => writeln!(o, "{s}").unwrap(),
+            Err(_) => writeln!(o, "PANIC").unwrap(),
+        }
+    }
+}
+
+/// playable: stdin lines "FEN | m1 m2 ..." -> index of the first move that is not a legal move when the line is played from the
+/// position (through find_move, i.e. the engine's own legal-move generator, which C01 ties to the rules), or -1 when all are
+fn cmd_playable() {
+    let mut o = out();
+    for line in std::io::stdin().lock().lines() {
+        let line = line.unwrap();
+        let (fen, ms) = match line.split_once('|') {
+            Some((f, m)) => (f.trim().to_string(), m.trim().to_string()),
+            None => continue,
+        };
+        let r = catch_unwind(AssertUnwindSafe(|| {
+            let mut b = Board::from_fen(&fen);
+            for (i, m) in ms.split_whitespace().enumerate() {
+                match b.find_move(m) {
+                    Ok(p) => b.make_move(p),
+                    Err(_) => return i as i64,
+                }
+            }
+            -1
+        }));
+        match r {
+            Ok(v) => writeln!(o, "{v}").unwrap(),
             Err(_) => writeln!(o, "PANIC").unwrap(),
         }
     }
@@ -1288,6 +1401,8 @@ pub fn main(args: &[String]) {
         "refvalue" => cmd_refvalue(),
         "matehunt" => cmd_matehunt(),
         "matefacts" => cmd_matefacts(),
+        "pairs" => cmd_pairs(),
+        "playable" => cmd_playable(),
         "tofen" => cmd_tofen(),
         "randfens" => cmd_randfens(&args[1..]),
         "eval" => cmd_eval(),
